@@ -899,14 +899,62 @@ func (r *run) opChpass(op core.Op) {
 			r.c10.extra = r.privPassAsBefore
 		}
 	}
+	window := op.Arg(5)
+	if r.c5 == nil || r.mgr.WatchOnly() || wrongOld || !private {
+		window = 0
+	}
 	res := r.tx(mode, k, func(ns walletdb.ReadWriteBucket) error {
-		return r.mgr.ChangePassphrase(ns, old, append([]byte(nil), newPass...), private, &waddrmgr.FastScryptOptions)
+		err := r.mgr.ChangePassphrase(ns, old, append([]byte(nil), newPass...), private, &waddrmgr.FastScryptOptions)
+		if err == nil && window != 0 {
+			// Another caller, in the window between ChangePassphrase
+			// returning and its transaction committing (a read transaction
+			// of its own; the passphrase in force is still the old one).
+			// Nothing is demanded of this call itself; the model follows the
+			// lock state the manager reports.
+			switch window {
+			case 1:
+				werr, _ := r.unlockWith(append([]byte(nil), r.m.Priv...))
+				r.env.Count("probe.unlock-inside-uncommitted-passphrase-change")
+				r.env.Logf("%d   window: Unlock(current) -> %s", r.opIdx, errName(werr))
+				if now := r.mgr.IsLocked(); now != r.locked {
+					r.locked = now
+				}
+				// whether the manager is locked or unlocked once the change
+				// has committed is not prescribed; if it locks itself the
+				// memory must be wiped as after any Lock
+				r.c5.beforeLock()
+			default:
+				was := r.locked
+				if !was {
+					r.c5.beforeLock()
+				}
+				_ = r.mgr.Lock()
+				r.env.Count("probe.lock-inside-uncommitted-passphrase-change")
+				r.locked = r.mgr.IsLocked()
+				if !was && r.locked {
+					r.c5.afterLock("lock")
+				}
+			}
+		}
+		return err
 	})
 	if res.aborted || (r.stop && r.c10 != nil) {
 		return
 	}
+	if window != 0 {
+		if now := r.mgr.IsLocked(); now != r.locked {
+			r.locked = now
+			if now {
+				r.env.Count("probe.locked-by-passphrase-change-commit")
+				r.c5.afterLock("passphrase-change")
+				if r.stop {
+					return
+				}
+			}
+		}
+	}
 	r.env.Eff()
-	r.env.Logf("%d chpass private=%v wrongold=%v state=%s -> %s %s", r.opIdx, private, wrongOld, r.stateName(), errName(res.err), res.kind)
+	r.env.Logf("%d chpass private=%v wrongold=%v window=%d state=%s -> %s %s", r.opIdx, private, wrongOld, window, r.stateName(), errName(res.err), res.kind)
 	if wrongOld {
 		if r.c5 != nil && !isCode(res.opErr, waddrmgr.ErrWrongPassphrase) {
 			r.fail("chpass-accepted-wrong-old:"+errName(res.opErr), "ChangePassphrase with a wrong old passphrase returned %v", res.opErr)
